@@ -206,8 +206,16 @@ fn reference_creq(r: &Req, query_for_creq: &str, signed: &[String], s3: bool) ->
     Some(out)
 }
 fn sign_header(r: &mut Req, ts: &str, region: &str, service: &str, s3: bool, body_hash_of: &[u8]) -> Option<()> {
-    r.headers.push(("X-Amz-Date".into(), ts.into()));
+    sign_header_ext(r, ts, ts, region, service, s3, body_hash_of, None)
+}
+/// `date_text` is what the X-Amz-Date header carries; `ts` is the compact UTC rendering of the same instant (what a signer puts in the
+/// string to sign); `only`: sign just these (lower-case) header names instead of all
+fn sign_header_ext(r: &mut Req, date_text: &str, ts: &str, region: &str, service: &str, s3: bool, body_hash_of: &[u8], only: Option<&[&str]>) -> Option<()> {
+    r.headers.push(("X-Amz-Date".into(), date_text.into()));
     let mut signed: Vec<String> = r.headers.iter().map(|h| h.0.to_lowercase()).collect();
+    if let Some(only) = only {
+        signed.retain(|h| only.contains(&h.as_str()) || h == "host" || h == "x-amz-date");
+    }
     signed.sort();
     signed.dedup();
     let mut creq = reference_creq(r, &r.query.clone(), &signed, s3)?;
@@ -225,6 +233,10 @@ fn pct(s: &str) -> String {
     String::from_utf8(encode(s.as_bytes())).unwrap()
 }
 fn sign_query(r: &mut Req, ts: &str, region: &str, service: &str, s3: bool) -> Option<()> {
+    sign_query_ext(r, ts, region, service, s3, None)
+}
+/// `listed`: the X-Amz-SignedHeaders value as written by the signer (e.g. unsorted); the canonical request always uses the sorted list
+fn sign_query_ext(r: &mut Req, ts: &str, region: &str, service: &str, s3: bool, listed: Option<&str>) -> Option<()> {
     let mut signed: Vec<String> = r.headers.iter().map(|h| h.0.to_lowercase()).collect();
     signed.sort();
     signed.dedup();
@@ -237,7 +249,7 @@ fn sign_query(r: &mut Req, ts: &str, region: &str, service: &str, s3: bool) -> O
         "X-Amz-Algorithm=AWS4-HMAC-SHA256&X-Amz-Credential={}&X-Amz-Date={}&X-Amz-SignedHeaders={}",
         pct(&format!("{}/{}", AKID, scope)),
         ts,
-        pct(&signed.join(";"))
+        pct(listed.unwrap_or(&signed.join(";")))
     ));
     let mut creq = reference_creq(r, &q, &signed, s3)?;
     creq.extend(sha_hex(&r.body).as_bytes());
@@ -247,12 +259,17 @@ fn sign_query(r: &mut Req, ts: &str, region: &str, service: &str, s3: bool) -> O
     r.query = q;
     Some(())
 }
+static LAST_TOKEN: std::sync::Mutex<Option<Option<String>>> = std::sync::Mutex::new(None);
 async fn provider(req: GetSigningKeyRequest) -> Result<GetSigningKeyResponse, BoxError> {
+    *LAST_TOKEN.lock().unwrap() = Some(req.session_token().map(|s| s.to_string()));
     let k = KSecretKey::from_str(SECRET).unwrap();
     let sk = k.to_ksigning(req.request_date(), req.region(), req.service());
     Ok(GetSigningKeyResponse::builder().signing_key(sk).build().unwrap())
 }
 fn validate(r: &Req, now: DateTime<Utc>, region: &str, service: &str, options: SignatureOptions) -> Result<(String, usize), String> {
+    validate_with(r, now, region, service, options, &VecSignedHeaderRequirements::default())
+}
+fn validate_with(r: &Req, now: DateTime<Utc>, region: &str, service: &str, options: SignatureOptions, reqs: &VecSignedHeaderRequirements) -> Result<(String, usize), String> {
     let mut uri = r.path.clone();
     if !r.query.is_empty() {
         uri.push('?');
@@ -265,14 +282,13 @@ fn validate(r: &Req, now: DateTime<Utc>, region: &str, service: &str, options: S
     let req = b.body(Bytes::from(r.body.clone())).map_err(|e| format!("http: {}", e))?;
     let rt = tokio::runtime::Builder::new_current_thread().build().unwrap();
     let mut svc = service_for_signing_key_fn(provider);
-    let reqs = VecSignedHeaderRequirements::default();
     let res = std::panic::catch_unwind(std::panic::AssertUnwindSafe(|| {
-        rt.block_on(sigv4_validate_request(req, region, service, &mut svc, now, &reqs, options))
+        rt.block_on(sigv4_validate_request(req, region, service, &mut svc, now, reqs, options))
     }));
     match res {
         Err(_) => Err("PANIC".into()),
         Ok(Ok((parts, body, _))) => Ok((parts.uri.to_string(), body.len())),
-        Ok(Err(e)) => Err(format!("{}", e)),
+        Ok(Err(e)) => Err(match e.downcast_ref::<scratchstack_aws_signature::SignatureError>() { Some(se) => format!("{}: {}", kind(se), se), None => format!("non-SignatureError: {}", e) }),
     }
 }
 fn ts_now() -> (String, DateTime<Utc>) {
@@ -426,8 +442,8 @@ fn search_roundtrip(what: &str) -> (usize, Option<Value>) {
     let mut n = 0;
     let (ts, now) = ts_now();
     let paths = ["/", "/a/b", "/a%20b/c", "/x/./y/../z", "//p//q/", "/%7Euser/-_."];
-    let queries = ["", "a=1", "b=2&a=1&a=0", "a=1&a-b=2", "q=x%20y&q=x+y", "k=v%3D%3D&e=", "%41=1&a=%61", "d=1&d=1"];
-    let extra_headers: [&[(&str, &str)]; 3] = [&[], &[("X-Custom", "  a   b  ")], &[("x-dup", "1"), ("X-Dup", "2")]];
+    let queries = ["", "a=1", "b=2&a=1&a=0", "a=1&a-b=2", "q=x%20y&q=x+y", "k=v%3D%3D&e=", "%41=1&a=%61", "d=1&d=1", "m=YWJj=="];
+    let extra_headers: [&[(&str, &str)]; 4] = [&[], &[("X-Custom", "  a   b  ")], &[("x-dup", "1"), ("X-Dup", "2")], &[("Date", "Sun, 30 Aug 2015 12:36:00 GMT")]];
     for p in paths {
         for q in queries {
             for hs in extra_headers {
@@ -464,6 +480,8 @@ fn search_roundtrip(what: &str) -> (usize, Option<Value>) {
                                 let first = q.split('&').next().unwrap();
                                 let mut v = clone(&r); v.query = format!("{}&{}", v.query, first); variants.push(("repeated existing parameter".into(), v));
                             }
+                            let mut v = clone(&r); v.query = if v.query.is_empty() { "x-amz-signature=00".into() } else { format!("{}&x-amz-signature=00", v.query) }; variants.push(("extra parameter named like the signature parameter in another letter case".into(), v));
+                            if q.contains("==") { let mut v = clone(&r); v.query = v.query.replace("==", "="); variants.push(("value shortened at a second equal sign".into(), v)); }
                             let mut v = clone(&r); v.path = format!("{}x", v.path); variants.push(("path byte added".into(), v));
                             let mut v = clone(&r); v.method = "DELETE"; variants.push(("method".into(), v));
                             for (what_changed, v) in variants {
@@ -505,6 +523,205 @@ fn form_fold_case() -> (usize, Option<Value>) {
         Ok((uri, blen)) if *blen == 0 && uri.contains("a=1&a=3&b=2&c=4") => (1, None),
         _ => (1, Some(json!({"fn": "sigv4_validate_request", "case": "form folding: URL ?a=1&b=2, body a=3&c=4", "real": format!("{:?}", res), "spec": "accepted, body emptied, URI query a=1&a=3&b=2&c=4"}))),
     }
+}
+
+
+/// C04 / C16: textual renderings of one instant, window boundaries, malformed dates (header carrier)
+fn search_time(what: &str) -> (usize, Option<Value>) {
+    let mut n = 0;
+    let base = Utc.with_ymd_and_hms(2015, 8, 30, 12, 36, 0).unwrap();
+    let compact = "20150830T123600Z";
+    let mk = |date_text: &str| -> Option<Req> {
+        let mut r = Req { method: "GET", path: "/".into(), query: "".into(), headers: vec![("Host".into(), "example.amazonaws.com".into())], body: vec![] };
+        sign_header_ext(&mut r, date_text, compact, "us-east-1", "service", false, b"", None)?;
+        Some(r)
+    };
+    if what == "C16" || what == "C04" {
+        for text in ["20150830T123600Z", "2015-08-30T12:36:00Z", "20150830T143600+0200", "2015-08-30T14:36:00+02:00", "20150830T103600-0200", "20150830T123600.000Z", "20150830T123600,0Z", "20150830T180600+0530"] {
+            n += 1;
+            let r = mk(text).unwrap();
+            let res = validate(&r, base, "us-east-1", "service", SignatureOptions::default());
+            if res.is_err() {
+                return (n, Some(json!({"fn": "sigv4_validate_request", "case": "accepted rendering of the request instant is refused", "x-amz-date": text, "server_time": "2015-08-30T12:36:00Z", "real": format!("{:?}", res)})));
+            }
+        }
+    }
+    if what == "C04" {
+        let r = mk(compact).unwrap();
+        for (delta, expect_ok) in [(900i64, true), (-900, true), (901, false), (-901, false), (0, true), (899, true)] {
+            n += 1;
+            let now = base + chrono::Duration::seconds(delta);
+            let res = validate(&r, now, "us-east-1", "service", SignatureOptions::default());
+            if res.is_ok() != expect_ok {
+                return (n, Some(json!({"fn": "sigv4_validate_request", "case": "freshness window", "server_minus_request_seconds": delta, "expected_accept": expect_ok, "real": format!("{:?}", res)})));
+            }
+        }
+        // an offset must be applied: two hours in the future in UTC terms
+        n += 1;
+        let r = mk("20150830T123600-0200").unwrap();
+        if validate(&r, base, "us-east-1", "service", SignatureOptions::default()).is_ok() {
+            return (n, Some(json!({"fn": "sigv4_validate_request", "case": "timestamp two hours ahead (offset -02:00) accepted", "x-amz-date": "20150830T123600-0200"})));
+        }
+    }
+    if what == "C16" {
+        for text in ["20150830T123600.Z", "20150230T123600Z", "20150830T123600", "x20150830T123600Z", "20150830T123600Zx", "20151330T123600Z", "20150830T246000Z", "2015-08-30 12:36:00Z"] {
+            n += 1;
+            let r = mk(text).unwrap();
+            let res = validate(&r, base, "us-east-1", "service", SignatureOptions::default());
+            let ok = match &res { Err(e) => e.starts_with("IncompleteSignature"), Ok(_) => false };
+            if !ok {
+                return (n, Some(json!({"fn": "sigv4_validate_request", "case": "malformed date must yield the ISO-8601 IncompleteSignature error", "x-amz-date": text, "real": format!("{:?}", res)})));
+            }
+        }
+    }
+    (n, None)
+}
+/// C05: requirement sets built through VecSignedHeaderRequirements; the request signs only host and x-amz-date
+fn search_requirements() -> (usize, Option<Value>) {
+    let mut n = 0;
+    let (ts, now) = ts_now();
+    let cases: Vec<(&str, VecSignedHeaderRequirements, Vec<(&str, &str)>, Vec<&str>, bool)> = vec![
+        ("always-required header not signed", VecSignedHeaderRequirements::new(&["X-Amz-Content-Sha256"], &[] as &[&str], &[] as &[&str]), vec![("X-Amz-Content-Sha256", "abc")], vec![], false),
+        ("always-required header signed", VecSignedHeaderRequirements::new(&["X-Amz-Content-Sha256"], &[] as &[&str], &[] as &[&str]), vec![("X-Amz-Content-Sha256", "abc")], vec!["x-amz-content-sha256"], true),
+        ("conditionally required header present but not signed", VecSignedHeaderRequirements::new(&[] as &[&str], &["Content-MD5"], &[] as &[&str]), vec![("content-md5", "x")], vec![], false),
+        ("conditionally required header absent", VecSignedHeaderRequirements::new(&[] as &[&str], &["Content-MD5"], &[] as &[&str]), vec![], vec![], true),
+        ("header with declared prefix (mixed case) not signed", VecSignedHeaderRequirements::new(&[] as &[&str], &[] as &[&str], &["X-Amz-Meta-"]), vec![("x-amz-meta-foo", "1")], vec![], false),
+        ("header with declared prefix signed", VecSignedHeaderRequirements::new(&[] as &[&str], &[] as &[&str], &["X-Amz-Meta-"]), vec![("x-amz-meta-foo", "1")], vec!["x-amz-meta-foo"], true),
+    ];
+    for (name, reqs, hdrs, sign_also, expect_ok) in cases {
+        n += 1;
+        let mut r = Req { method: "GET", path: "/".into(), query: "".into(), headers: vec![("Host".into(), "example.amazonaws.com".into())], body: vec![] };
+        for (k, v) in &hdrs {
+            r.headers.push((k.to_string(), v.to_string()));
+        }
+        sign_header_ext(&mut r, &ts, &ts, "us-east-1", "service", false, b"", Some(&sign_also));
+        let res = validate_with(&r, now, "us-east-1", "service", SignatureOptions::default(), &reqs);
+        let ok = if expect_ok { res.is_ok() } else { matches!(&res, Err(e) if e.starts_with("SignatureDoesNotMatch")) };
+        if !ok {
+            return (n, Some(json!({"fn": "sigv4_validate_request", "case": name, "expected_accept": expect_ok, "real": format!("{:?}", res)})));
+        }
+    }
+    (n, None)
+}
+/// C12 standing bounded check of the functions NOT under contract (get_content_type_and_charset, trim_ascii): Content-Type spellings
+fn search_content_type() -> (usize, Option<Value>) {
+    let mut n = 0;
+    let (ts, now) = ts_now();
+    // (content type, folded?, expected error kind or "" for accept)
+    let cases = [
+        ("application/x-www-form-urlencoded", true, ""),
+        ("application/x-www-form-urlencoded; charset=utf-8", true, ""),
+        ("application/x-www-form-urlencoded;charset=UTF-8", true, ""),
+        ("application/x-www-form-urlencoded ;  charset=utf-8 ", true, ""),
+        ("application/x-www-form-urlencoded; Charset=foobar", true, "InvalidBodyEncoding"),
+        ("application/x-www-form-urlencoded; charset=foobar", true, "InvalidBodyEncoding"),
+        ("application/x-www-form-urlencoded; boundary=x; CHARSET=nonesuch", true, "InvalidBodyEncoding"),
+        ("text/plain", false, ""),
+        ("application/json; charset=foobar", false, ""),
+    ];
+    for (ct, folded, err) in cases {
+        n += 1;
+        let body = b"a=3&c=4".to_vec();
+        let mut r = Req { method: "POST", path: "/".into(), query: "a=1".into(), headers: vec![("Host".into(), "example.amazonaws.com".into()), ("Content-Type".into(), ct.into())], body: body.clone() };
+        if folded {
+            let mut merged = Req { method: "POST", path: "/".into(), query: "a=1&a=3&c=4".into(), headers: r.headers.clone(), body: vec![] };
+            sign_header(&mut merged, &ts, "us-east-1", "service", false, b"");
+            r.headers = merged.headers;
+        } else {
+            let b2 = body.clone();
+            sign_header(&mut r, &ts, "us-east-1", "service", false, &b2);
+        }
+        let res = validate(&r, now, "us-east-1", "service", SignatureOptions::url_encode_form());
+        let ok = if err.is_empty() { res.is_ok() } else { matches!(&res, Err(e) if e.starts_with(err)) };
+        if !ok {
+            return (n, Some(json!({"fn": "sigv4_validate_request (get_content_type_and_charset)", "case": "Content-Type spelling", "content_type": ct, "expected": if err.is_empty() {"accepted"} else {err}, "real": format!("{:?}", res)})));
+        }
+    }
+    // a body that yields no parameters and a URL without query: the body must still come back empty and be hashed as empty
+    n += 1;
+    let mut r = Req { method: "POST", path: "/".into(), query: "".into(), headers: vec![("Host".into(), "example.amazonaws.com".into()), ("Content-Type".into(), "application/x-www-form-urlencoded".into())], body: b"&&".to_vec() };
+    {
+        let mut merged = Req { method: "POST", path: "/".into(), query: "".into(), headers: r.headers.clone(), body: vec![] };
+        sign_header(&mut merged, &ts, "us-east-1", "service", false, b"");
+        r.headers = merged.headers;
+    }
+    let res = validate(&r, now, "us-east-1", "service", SignatureOptions::url_encode_form());
+    if !matches!(&res, Ok((_, 0))) {
+        return (n, Some(json!({"fn": "sigv4_validate_request", "case": "folded form body of only separators", "expected": "accepted with an empty body", "real": format!("{:?}", res)})));
+    }
+    // a folded body too large for a URI must not be accepted with the URI left as it was
+    n += 1;
+    let body: Vec<u8> = std::iter::repeat(b"k=vvvvvvvv&".as_slice()).take(7000).flatten().copied().collect();
+    let mut r = Req { method: "POST", path: "/".into(), query: "".into(), headers: vec![("Host".into(), "h".into()), ("Content-Type".into(), "application/x-www-form-urlencoded".into())], body: body.clone() };
+    {
+        let q = String::from_utf8(body[..body.len() - 1].to_vec()).unwrap();
+        let mut merged = Req { method: "POST", path: "/".into(), query: q, headers: r.headers.clone(), body: vec![] };
+        sign_header(&mut merged, &ts, "us-east-1", "service", false, b"");
+        r.headers = merged.headers;
+    }
+    let res = validate(&r, now, "us-east-1", "service", SignatureOptions::url_encode_form());
+    if let Ok((uri, blen)) = &res {
+        if !uri.contains("k=vvvvvvvv") {
+            return (n, Some(json!({"fn": "sigv4_validate_request", "case": "oversized folded form accepted although the returned URI does not carry the merged parameters", "returned_uri_len": uri.len(), "returned_body_len": blen})));
+        }
+    }
+    if res == Err("PANIC".to_string()) {
+        return (n, Some(json!({"fn": "sigv4_validate_request", "case": "oversized folded form", "real": "PANIC"})));
+    }
+    (n, None)
+}
+/// C11 / C19: the presigned carrier with X-Amz-SignedHeaders listed unsorted; repeated X-Amz-Security-Token; Date and X-Amz-Date both present
+fn search_carriers() -> (usize, Option<Value>) {
+    let mut n = 0;
+    let (ts, now) = ts_now();
+    // unsorted SignedHeaders on the query carrier: the canonical form sorts them
+    n += 1;
+    let mut r = Req { method: "GET", path: "/".into(), query: "".into(), headers: vec![("Host".into(), "example.amazonaws.com".into()), ("X-Amz-Meta-A".into(), "1".into())], body: vec![] };
+    sign_query_ext(&mut r, &ts, "us-east-1", "service", false, Some("x-amz-meta-a;host"));
+    let res = validate(&r, now, "us-east-1", "service", SignatureOptions::default());
+    if res.is_err() {
+        return (n, Some(json!({"fn": "sigv4_validate_request", "case": "presigned request with X-Amz-SignedHeaders listed unsorted is refused", "query": r.query, "real": format!("{:?}", res)})));
+    }
+    // header carrier with both Date (RFC 1123) and X-Amz-Date: X-Amz-Date wins
+    n += 1;
+    let mut r = Req { method: "GET", path: "/".into(), query: "".into(), headers: vec![("Host".into(), "example.amazonaws.com".into()), ("Date".into(), "Sun, 30 Aug 2015 12:36:00 GMT".into())], body: vec![] };
+    sign_header(&mut r, &ts, "us-east-1", "service", false, b"");
+    let res = validate(&r, now, "us-east-1", "service", SignatureOptions::default());
+    if res.is_err() {
+        return (n, Some(json!({"fn": "sigv4_validate_request", "case": "X-Amz-Date must be preferred to Date", "real": format!("{:?}", res)})));
+    }
+    // presigned request repeating X-Amz-Security-Token: the FIRST value is the one handed to the key provider
+    n += 1;
+    let mut r = Req { method: "GET", path: "/".into(), query: "X-Amz-Security-Token=first&X-Amz-Security-Token=second".into(), headers: vec![("Host".into(), "example.amazonaws.com".into())], body: vec![] };
+    sign_query(&mut r, &ts, "us-east-1", "service", false);
+    *LAST_TOKEN.lock().unwrap() = None;
+    let res = validate(&r, now, "us-east-1", "service", SignatureOptions::default());
+    let tok = LAST_TOKEN.lock().unwrap().clone();
+    if res.is_err() || tok != Some(Some("first".to_string())) {
+        return (n, Some(json!({"fn": "sigv4_validate_request", "case": "repeated X-Amz-Security-Token: the first value must be used", "provider_was_asked_with": format!("{:?}", tok), "real": format!("{:?}", res)})));
+    }
+    (n, None)
+}
+/// C15: the three body conversions shipped with the crate
+fn search_into_bytes() -> (usize, Option<Value>) {
+    use scratchstack_aws_signature::IntoRequestBytes;
+    let rt = tokio::runtime::Builder::new_current_thread().build().unwrap();
+    let mut n = 0;
+    for len in [0usize, 1, 7, 300] {
+        n += 1;
+        let v: Vec<u8> = (0..len).map(|i| (i * 7 % 251) as u8).collect();
+        let a = rt.block_on(v.clone().into_request_bytes());
+        let b = rt.block_on(Bytes::from(v.clone()).into_request_bytes());
+        let ok = matches!(&a, Ok(x) if x.as_ref() == v.as_slice()) && matches!(&b, Ok(x) if x.as_ref() == v.as_slice());
+        if !ok {
+            return (n, Some(json!({"fn": "IntoRequestBytes for Vec<u8> / Bytes", "input_len": len, "real": "bytes not preserved"})));
+        }
+    }
+    n += 1;
+    if !matches!(rt.block_on(().into_request_bytes()), Ok(x) if x.is_empty()) {
+        return (n, Some(json!({"fn": "IntoRequestBytes for ()", "real": "not empty"})));
+    }
+    (n, None)
 }
 
 fn witness(w: &Value) -> Value {
@@ -572,6 +789,22 @@ fn searches_for(pid: &str, strict_d6: bool) -> Vec<(&'static str, (usize, Option
     }
     if all || pid == "C12" || pid == "C15" {
         v.push(("form_fold", form_fold_case()));
+        v.push(("content_type_and_fold_edges", search_content_type()));
+    }
+    if all || pid == "C15" {
+        v.push(("into_request_bytes", search_into_bytes()));
+    }
+    if all || pid == "C04" {
+        v.push(("time_window", search_time("C04")));
+    }
+    if all || pid == "C16" {
+        v.push(("time_text", search_time("C16")));
+    }
+    if all || pid == "C05" {
+        v.push(("requirements", search_requirements()));
+    }
+    if all || pid == "C11" || pid == "C19" {
+        v.push(("carriers", search_carriers()));
     }
     if pid == "C08" {
         // totality: only panics count
@@ -598,6 +831,16 @@ fn main() {
             let found: Vec<Value> = rs.iter().filter_map(|r| r.1 .1.clone().map(|d| json!({"search": r.0, "disagreement": d}))).collect();
             json!({"ok": true, "found": !found.is_empty(), "cases": cases, "searches": rs.iter().map(|r| json!({"name": r.0, "cases": r.1.0})).collect::<Vec<_>>(), "disagreements": found,
                    "bound": "strings up to 4-6 symbols over small alphabets; fixed list of structured paths/queries; 6x7x3x2 signed requests", "strict_d6": strict_d6})
+        }
+        Some("standing") => {
+            let pid = args.get(2).map(|s| s.as_str()).unwrap_or("");
+            let mut rs: Vec<(&'static str, (usize, Option<Value>))> = Vec::new();
+            if pid == "C12" { rs.push(("content_type_and_fold_edges", search_content_type())); }
+            if pid == "C15" { rs.push(("into_request_bytes", search_into_bytes())); }
+            let cases: usize = rs.iter().map(|r| r.1 .0).sum();
+            let found: Vec<Value> = rs.iter().filter_map(|r| r.1 .1.clone().map(|d| json!({"search": r.0, "disagreement": d}))).collect();
+            json!({"ok": true, "found": !found.is_empty(), "cases": cases, "searches": rs.iter().map(|r| json!({"name": r.0, "cases": r.1.0})).collect::<Vec<_>>(), "disagreements": found,
+                   "bound": "fixed lists of Content-Type spellings / body lengths; stands in for get_content_type_and_charset, trim_ascii and the IntoRequestBytes impls, which are not under contract"})
         }
         Some("rerun") => {
             // re-run = run the searches again and report whether the recorded disagreement is still present
